@@ -233,16 +233,18 @@ a render are logged by `renderM`). -/
 def renderEnv (env : Env) (lang : Option Bytes) : RenderEnv :=
   { tpl := env.tpl lang, label := env.label lang }
 
+/-- Go's message for a failed `pg.Map(sym)` -/
+def mapErrMsg (k : String) (sym cur : Bytes) : Bytes :=
+  if k = "map-get" then ascii "key '" ++ sym ++ ascii "' not found in any frame"
+  else if k = "map-size" then ascii "unknown symbol: " ++ sym
+  else ascii "sink already set to symbol '" ++ cur ++ ascii "'"
+
 /-- `pg.Map(sym)` with Go's messages -/
 def pageMapM (sym : Bytes) : VM Unit := do
   let s ← get
   match s.pg.map s.ca sym with
   | .ok pg => modify fun s => { s with pg := pg }
-  | .err "map-get" => fail "map-get" (ascii "key '" ++ sym ++ ascii "' not found in any frame")
-  | .err "map-size" => fail "map-size" (ascii "unknown symbol: " ++ sym)
-  | .err k =>
-    let cur := match s.pg.sink with | some x => x | none => []
-    fail k (ascii "sink already set to symbol '" ++ cur ++ ascii "'")
+  | .err k => fail k (mapErrMsg k sym (s.pg.sink.getD []))
   | .panic p => vpanic p
 
 /-- the two loops of `refresh` over `FlagReset` / `FlagSet`: a requested flag is applied only when
@@ -252,6 +254,19 @@ def applyFlagList (setTo : Bool) : List Nat → VM Unit
   | f :: fs => do
     let _ ← (if isWriteableFlag f then (if setTo then setFlagM f else resetFlagM f) else pure false)
     applyFlagList setTo fs
+
+/-- what `refresh` does with the handler's result: LOADFAIL on failure, otherwise the writeable
+flag requests, then the LANG handling -/
+def refreshTail (env : Env) (key : Bytes) (r : ExtResult) : VM Bytes := do
+  if r.fail then do
+    let _ ← setFlagM Facts.loadfailFlag
+    fail "external" (ascii "error " ++ key ++ ascii ":" ++ ascii (toString r.status))
+  else do
+    applyFlagList false r.flagReset
+    applyFlagList true r.flagSet
+    let haveLang ← matchFlagM Facts.langFlag true
+    modify fun s => if haveLang then { s with st := s.st.setLanguageSt env.langOf r.content } else s
+    pure r.content
 
 /-- `refresh(key)`: look the function up, call it, apply the writeable flags, handle LANG. -/
 def refresh (env : Env) (lang : Option Bytes) (key : Bytes) : VM Bytes := do
@@ -263,15 +278,7 @@ def refresh (env : Env) (lang : Option Bytes) (key : Bytes) : VM Bytes := do
   | some r => do
     modify fun s => { s with ghost := { s.ghost with calls := s.ghost.calls ++ [(key, input, lang)],
                                                      ncalls := s.ghost.ncalls + 1 } }
-    if r.fail then do
-      let _ ← setFlagM Facts.loadfailFlag
-      fail "external" (ascii "error " ++ key ++ ascii ":" ++ ascii (toString r.status))
-    else do
-      applyFlagList false r.flagReset
-      applyFlagList true r.flagSet
-      let haveLang ← matchFlagM Facts.langFlag true
-      modify fun s => if haveLang then { s with st := s.st.setLanguageSt env.langOf r.content } else s
-      pure r.content
+    refreshTail env key r
 
 /-- `runErrCheck` -/
 def runErrCheck (kind : String) (msg : Bytes) (opq : Bool) : VM Bytes := do
@@ -385,8 +392,7 @@ def runInCmp (env : Env) (lang : Option Bytes) (b : Bytes) : VM Bytes := do
   let reading ← getFlagM Facts.readinFlag
   let have_ ← getFlagM Facts.inmatchFlag
   if have_ && reading then pure b else do
-  if !have_ then
-    let _ ← setFlagM Facts.readinFlag
+  let _ ← (if !have_ then setFlagM Facts.readinFlag else pure false)
   let s ← get
   match s.st.input with
   | none => fail "no-input" (ascii "no input has been set")
@@ -422,6 +428,15 @@ def runMPrev (b : Bytes) : VM Bytes := do
 /-- messages whose exact text the model does not reproduce -/
 def opaqueKind (k : String) : Bool := k = "decode" || k = "short-opcode" || k = "invalid-opcode"
 
+/-- what `Run` does with the outcome of one instruction: `runErrCheck`, then `runDeadCheck` when no
+code is left -/
+def settle (r : VRes Bytes) : VM Bytes := do
+  let b ← (match r with
+    | .ok x => pure x
+    | .panic p => vpanic p
+    | .err k m => runErrCheck k m (opaqueKind k))
+  if b.isEmpty then runDeadCheck else pure b
+
 /-- `Vm.Run`: structurally recursive on fuel. `lang` is the language on the Go context. -/
 def runLoop (env : Env) : Nat → Option Bytes → Bytes → VM Bytes
   | 0, _, _ => fail "fuel" (ascii "fuel")
@@ -432,10 +447,9 @@ def runLoop (env : Env) : Nat → Option Bytes → Bytes → VM Bytes
     let s ← get
     let lang := if change then (match s.st.language with | some l => some l | none => lang) else lang
     let waitChange ← resetFlagM Facts.waitFlag
-    if waitChange then do
-      let _ ← resetFlagM Facts.inmatchFlag
-      -- pg.Reset(); pg.WithError(nil) (fix: commit 0861976); mn.Reset()
-      modify fun s => { s with pg := { s.pg.reset with err := none }, errOpaque := false }
+    let _ ← (if waitChange then resetFlagM Facts.inmatchFlag else pure false)
+    -- pg.Reset(); pg.WithError(nil) (fix: commit 0861976); mn.Reset()
+    modify fun s => if waitChange then { s with pg := { s.pg.reset with err := none }, errOpaque := false } else s
     let _ ← setFlagM Facts.dirtyFlag
     match opSplit b with
     | .err k => fail k (ascii "decode")
@@ -455,11 +469,7 @@ def runLoop (env : Env) : Nat → Option Bytes → Bytes → VM Bytes
         else if op = Facts.opMNEXT then runMNext b'
         else if op = Facts.opMPREV then runMPrev b'
         else fail "unhandled" (ascii s!"Unhandled state: {op}"))
-      let b'' ← match r with
-        | .ok x => pure x
-        | .panic p => vpanic p
-        | .err k m => runErrCheck k m (opaqueKind k)
-      let b'' ← if b''.isEmpty then runDeadCheck else pure b''
+      let b'' ← settle r
       if b''.isEmpty then pure [] else runLoop env fuel lang b''
 
 /-- log the lookups a page render makes (template, then one label per rendered menu title) -/
